@@ -1,14 +1,15 @@
 (* C20 model: the tagging pipelines as programs of Lib.StatusLang, GENERATED from the source
-   (Gen/GenStatus.v: pipeline = run_multiome_tagging with both tag_multiome_* functions,
-   sorted_bam_file, sort_and_index and merge_bams inlined; worker_body = the with block of
-   run_tagging_tasks).  This file: the fault oracles and the I/O glue.  Definitions only. *)
+   (Gen/GenStatus.v: pipeline = run_multiome_tagging with both tag_multiome_* functions, the --cluster
+   branch, sorted_bam_file, sort_and_index and merge_bams inlined, and one Spawn of worker_full per result
+   of the worker pool; worker_full = the whole body of run_tagging_tasks with run_tagging_task inlined).
+   This file: the fault oracles and the I/O glue.  Definitions only. *)
 From Coq Require Import ZArith List Bool.
 Import ListNotations.
 From SCMO Require Import Lib.Val Lib.StatusLang Gen.GenStatus.
 
 (* a run: loop counts, branch outcomes and fault oracle are parameters *)
-Definition start (w : world) : cfg := mkC 0 w [].
-Definition run_prog (p : prog) (cnt : nat -> nat) (ch : nat -> bool) (f : nat -> fault) (w : world) : res * cfg :=
+Definition start (w : world) : cfg := mkC 0 w [] [].
+Definition run_prog (p : prog) (cnt : nat -> nat -> nat) (ch : nat -> nat -> bool) (f : nat -> fault) (w : world) : res * cfg :=
   exec cnt ch f p (start w).
 
 (* the crash points of the property statement: the k-th executed step raises an exception of kind e
@@ -23,10 +24,13 @@ Definition dec_status (z : Z) : status :=
   match z with 0%Z => SNone | 1%Z => SUnfinished | 2%Z => SFail | 3%Z => SOk | _ => SOther end.
 Definition enc_status (s : status) : Z :=
   match s with SNone => 0 | SUnfinished => 1 | SFail => 2 | SOk => 3 | SOther => 4 end%Z.
+(* [status; exists; complete; sorted; indexed] (ghost and data fields initial) optionally followed by [rep] *)
 Definition dec_world (v : Val) : world :=
-  mkW (dec_status (getZ (nthV 0 v))) (getB (nthV 1 v)) (getB (nthV 2 v)) (getB (nthV 3 v)) (getB (nthV 4 v)) false.
+  mkW (dec_status (getZ (nthV 0 v))) (getB (nthV 1 v)) (getB (nthV 2 v)) (getB (nthV 3 v)) (getB (nthV 4 v))
+      false (getB (nthV 5 v)) false false false false false.
 Definition enc_world (w : world) : Val :=
-  VL [VZ (enc_status (st w)); ofB (ex w); ofB (co w); ofB (so w); ofB (ix w); ofB (lost w)].
+  VL [VZ (enc_status (st w)); ofB (ex w); ofB (co w); ofB (so w); ofB (ix w); ofB (lost w); ofB (rep w);
+      ofB (tu w); ofB (tm w); ofB (gu w); ofB (gm w); ofB (got w)].
 Definition dec_kind (z : Z) : ekind :=
   match z with 0%Z => KRuntime | 1%Z => KValue | 2%Z => KOS | 3%Z => KTimeout | 4%Z => KMemory | 5%Z => KOther | _ => KBase end.
 Definition enc_kind (k : ekind) : Z :=
@@ -37,15 +41,25 @@ Definition dec_fault (z : Z) : fault :=
   else if Z.ltb z 200 then FBefore (dec_kind (z - 100)) else FPartial (dec_kind (z - 200)).
 Fixpoint lookup (l : list (Z * Z)) (i : Z) : Z :=
   match l with [] => 0%Z | (k, v) :: l' => if Z.eqb k i then v else lookup l' i end.
-Definition enc_res (r : res) : Z := match r with RNormal => 0 | RRaised k => 1 + enc_kind k end%Z.
+(* iterations of loop id at its k-th entry: [[id; k; count]; ...] overrides the per-loop default *)
+Fixpoint lookup3 (l : list (list Z)) (i k : Z) (d : Z) : Z :=
+  match l with
+  | [] => d
+  | [a; b; c] :: l' => if Z.eqb a i && Z.eqb b k then c else lookup3 l' i k d
+  | _ :: l' => lookup3 l' i k d
+  end.
+Definition enc_res (r : res) : Z :=
+  match r with RNormal => 0 | RRaised k => 1 + enc_kind k | RBreak => 20 | RContinue => 21
+             | RReturn VPath => 30 | RReturn VNone => 31 end%Z.
 
 Definition run_val (p : prog) (v : Val) : Val :=
   let w := dec_world (nthV 0 v) in
   let cnts := getZs (nthV 1 v) in
   let chs := getZs (nthV 2 v) in
   let faults := map getPair (getL (nthV 3 v)) in
-  let cnt := fun i => Z.to_nat (nth i cnts 0%Z) in
-  let ch := fun i => negb (Z.eqb (nth i chs 0%Z) 0) in
+  let over := map getZs (getL (nthV 4 v)) in
+  let cnt := fun i k => Z.to_nat (lookup3 over (Z.of_nat i) (Z.of_nat k) (nth i cnts 0%Z)) in
+  let ch := fun i (_ : nat) => negb (Z.eqb (nth i chs 0%Z) 0) in
   let f := fun i => dec_fault (lookup faults (Z.of_nat i)) in
   let '(r, s) := run_prog p cnt ch f w in
   VL [VZ (enc_res r); enc_world (wd s); VL (map (fun l => VZ (Z.of_nat l)) (rev (tr s)))].
@@ -54,10 +68,11 @@ Definition run_C20 (mode : Z) (v : Val) : Val :=
   match mode with
   | 0%Z => run_val pipeline v
   | 1%Z => ofB (invb (dec_world (nthV 0 v)))
-  | 2%Z => (* the specification evaluated on an observed outcome: [world; raised] *)
+  | 2%Z => (* the specification evaluated on an observed outcome: [[status; exists; complete; sorted; indexed;
+              reported]; raised] -> [strict invariant; invariant up to reported segments; failed -> not Ok] *)
       let w := dec_world (nthV 0 v) in
       let raised := getB (nthV 1 v) in
-      VL [ofB (invb w); ofB (negb (raised && status_eqb (st w) SOk))]
-  | 3%Z => run_val worker_body v
+      VL [ofB (invb w); ofB (invb_rep w); ofB (negb (raised && status_eqb (st w) SOk))]
+  | 3%Z => run_val worker_full v
   | _ => bad
   end.
